@@ -4,7 +4,9 @@ Correspondence with lean/EdzedModel/ErrorReg.lean: scripted error sources of eve
 at chosen instants (several in one instant, in every order) into a REAL simulation (run_forever as a
 task, or edzed.run() with supporting coroutines) on the virtual-time loop; after every source and after
 every settle the caller-visible result, Circuit.is_ready() and Circuit.error are compared with the model,
-at the end the exceptions out of run_forever / shutdown() / run().
+at the end the exceptions out of run_forever / shutdown() / run(); the outcome of the driver's wait_init()
+(awaited from before the start: ok / EdzedInvalidState / AttributeError after an abort before the start) is
+compared with the model's `waitInitReply`.
 """
 import asyncio
 import itertools
@@ -203,6 +205,8 @@ def reply_of(exc):
         return 'UnknownEvent'
     if isinstance(exc, TypeError):
         return 'TypeError'
+    if isinstance(exc, AttributeError):
+        return 'AttributeError'
     return 'raised:' + enc_err(exc)
 
 
@@ -473,8 +477,14 @@ def run_impl(scn):
         """the driver: returns normally at the end of the script"""
         try:
             await circuit.wait_init()
-        except Exception:       # start-up failed (InvalidState; AttributeError after an abort before the start)
-            pass
+        except Exception as err:    # start-up failed (InvalidState; AttributeError after an abort before the start)
+            wi = reply_of(err)
+        else:
+            wi = 'ok'
+        # what wait_init() reported (the model answers from the state before the start; a driver cancelled inside
+        # wait_init() by run() never gets here)
+        rec.lines.append('errreg waitinit ' + ('900' if scn['init_err'] else '-'))
+        rec.trace.append(wi)
         await quiesce(loop)
         rec.add(start_line, 'ok', circuit)
         rec.started = True
